@@ -20,8 +20,14 @@
 (*            folder = "a run folder is given"),                           *)
 (*   prev    [desc, inputs]: the (valid, completed) run whose results the  *)
 (*            run folder holds when the request arrives,                   *)
-(*   entry   "map" (Pipeline.map) | "call" (pipeline(out, **kw) / run),    *)
-(*   out     the requested output of a call ("" for map).                  *)
+(*   entry   "map" (Pipeline.map) | one of the call-style entries "call"   *)
+(*           (pipeline(out, **kw)), "run" (pipeline.run(out, kwargs=kw,    *)
+(*           full_output=True)), "func" (pipeline.func(out) called with kw), *)
+(*   out     the requested output of a call ("" for map).  ANY output may  *)
+(*           be requested, also one that the ill-formed part of the        *)
+(*           pipeline does not reach (upstream of a cycle, unrelated to a  *)
+(*           duplicate): the construction-time clauses speak about the     *)
+(*           pipeline, not about the part an evaluation would visit.       *)
 (* Valid(r) is the conjunction of the NAMED clauses below, in the order in *)
 (* which the code can evaluate them (PipeFunc/Pipeline construction, then  *)
 (* pipefunc/map/_prepare.py prepare_run, then _run_info.py RunInfo.create).*)
@@ -94,7 +100,9 @@ KnownStorage(c) == \A k \in DOMAIN StorageNames(c) : StorageNames(c)[k] \in Know
 
 (* Clauses of the start of a call  pipeline(out, **kw) / Pipeline.run  (PipelineStatic): every argument of every needed *)
 (* function has a source; no keyword names something that no needed function takes.                                   *)
-IsCall(r) == r.entry = "call"
+CallEntries == {"call", "run", "func"}         \* the three spellings of Pipeline.run; they differ in the code, not in the law
+Entries     == {"map"} \cup CallEntries
+IsCall(r) == r.entry \in CallEntries
 CallComplete(r)  == Defined(r.desc, r.inputs, r.out)
 CallNoSurplus(r) == StrictSurplus(r.desc, r.inputs, r.out) = {}
 
@@ -146,6 +154,16 @@ ValidConj(r) ==
             /\ KnownStorage(r.cfg) /\ RankOK(r.desc, r.inputs) /\ ZipOK(r.desc, r.inputs)
 ConstructionClauses == {"UniqueOutputs", "OutputNotOwnParam", "Acyclic", "ConsistentDefaults", "MapSpecMatchesSignature",
                         "ConsistentAxes"}
+(* The verdict of a construction-time clause belongs to the PIPELINE: it is the same whichever entry is used, whichever   *)
+(* output is requested and whatever keywords / inputs / configuration come with the request.  (pipefunc has no separate   *)
+(* "is the graph acyclic" step: a cycle is noticed where some code happens to sort the graph topologically - while the    *)
+(* MapSpec axes are generated at construction, in mapspec_names at the start of run, in prepare_run at the start of map.  *)
+(* The law says that the rejection may not depend on which of these places a request happens to pass: not on the presence *)
+(* of MapSpecs, not on the entry, not on the requested output lying inside, downstream, upstream or beside the fault.)    *)
+ConstructionVerdictIsEntryBlind(r) ==
+    FirstViolated(r) \in ConstructionClauses =>
+        \A e \in Entries : \A o \in AllOutputs(r.desc) \cup {""} : \A kw \in {r.inputs, <<>>} :
+            FirstViolated([r EXCEPT !.entry = e, !.out = o, !.inputs = kw]) = FirstViolated(r)
 (* for a request that passes the earlier clauses this coincides with the C01 notion of a valid map request *)
 LawAgreesWithMapDenote(r) ==
     (~IsCall(r) /\ ConstructOK(r.desc) /\ CompleteInputs(r.desc, r.inputs) /\ NoSurplusInputs(r.desc, r.inputs)
